@@ -319,3 +319,42 @@ func PackTwice(c Codec, tag byte) ([]byte, int) {
 	k += put1(buf[k:], tag)
 	return buf, k + len(buf)
 }
+
+// ---- a read-only view of a generic struct with slice fields ----
+
+type Ent[V any] struct {
+	Off int
+	Sz  uint32
+	V   V
+}
+
+type Table[V any] struct {
+	Data  []byte
+	Items []Ent[V]
+	Idx   []int32
+	Seed  ext.Seed
+}
+
+func (m *Table[V]) Find(s string) (t V, ok bool) {
+	if len(m.Idx) == 0 {
+		return t, false
+	}
+	h := uint32(ext.Keyed(m.Seed, s)) % uint32(len(m.Idx))
+	i := m.Idx[h]
+	if i < 0 {
+		return
+	}
+	e := &m.Items[i]
+	for j := i; ; j++ {
+		if string(m.Data[e.Off:e.Off+int(e.Sz)]) == s {
+			return e.V, true
+		}
+		if j+1 >= int32(len(m.Items)) {
+			break
+		}
+		e = &m.Items[j+1]
+	}
+	return t, false
+}
+
+func (m *Table[V]) Sizes() int { return len(m.Items)*100 + len(m.Idx) }
